@@ -374,7 +374,7 @@ class PrimaiteGame:
                     new_application.run()
 
             if "network_interfaces" in node_cfg:
-                for nic_num, nic_cfg in sorted(node_cfg["network_interfaces"].items(), key=lambda item: item[0]):
+                for nic_num, nic_cfg in sorted(node_cfg["network_interfaces"].items(), key=lambda item: int(item[0])):
                     new_node.connect_nic(NIC(ip_address=nic_cfg["ip_address"], subnet_mask=nic_cfg["subnet_mask"]))
 
             # temporarily set to 0 so all nodes are initially on
